@@ -29,14 +29,18 @@ REQUIRED_THEOREMS = [
     "collInfo_cases", "allwf_step", "applyTo_some_srun", "world_refines_store_all", "world_run_refines_all",
     "world_reads_appended",
 ]
-RULE = ("adaptive random operation sequences of length 5-40 over newField/setField/newStore/setMode/"
+RULE = ("(1) adaptive random operation sequences of length 5-40 over newField/setField/newStore/setMode/"
         "start_writing/append/end_writing/clear/read/items/slice/extract_time_range/extract_field/view_field/"
-        "copy/apply/from_fields/direct frame writes, drawn from 8 field profiles (scalar, vector, tensor, "
-        "collections with duplicate/missing labels, 1-cell and non-Cartesian grids), all write modes incl. an "
-        "unknown one, repeated/unsorted/defaulted time stamps, a malformed stream (writes without data shape, "
-        "readonly writes, wrong grid/shape, out-of-range reads, bad field ids); a case is distinct by its "
-        "operation list and non-trivial if it has >= 2 accepted appends of non-constant data, >= 1 accepted "
-        "read or derived view and >= 1 mutation, mode transition, truncation or rejected operation")
+        "copy/apply/from_fields/from_collection/direct frame writes, drawn from 8 field profiles (scalar, vector, "
+        "tensor, collections with duplicate/missing labels, 1-cell and non-Cartesian grids), all write modes incl. "
+        "an unknown one, repeated/unsorted/defaulted time stamps, sessions through StorageTracker objects, a "
+        "malformed stream (writes without data shape, readonly writes, wrong grid/shape, out-of-range reads, bad "
+        "field ids); distinct by operation list; non-trivial if >= 2 accepted appends of non-constant data, >= 1 "
+        "accepted read or derived view and >= 1 mutation, mode transition, truncation or rejected operation. "
+        "(2) ALL sequences over a 13-operation alphabet up to length 2-4 per initial write mode; non-trivial if the "
+        "storage state moves or an operation is rejected at least twice. (3) searchsorted on sorted/unsorted/tied "
+        "lists vs numpy. (4) real solver runs filling one storage through storage.tracker(). (5) get_memory_storage. "
+        "(6) 16 template/appended dtype combinations (monitor only)")
 ASSUMPTIONS = [
     "numpy copy/view semantics (np.array copies, slicing shares) are observed through np.shares_memory / array bases",
     "the info dictionary shared between a storage and the storages derived from it is outside the model "
